@@ -312,6 +312,14 @@ impl<T> PartitionExt<T> for Vec<T> {
     fn into_iter_partition<F: Fn(&T) -> bool>(self, f: F) -> (r: (Vec<T>, Vec<T>)) { unimplemented!() }
 }
 
+/// a partition keeps every element exactly once: |filter(p)| + |filter(!p)| == |s|
+pub proof fn lemma_partition_len<T>(s: Seq<T>, p: spec_fn(T) -> bool)
+    ensures s.filter(p).len() + s.filter(|x: T| !p(x)).len() == s.len(),
+    decreases s.len(),
+{
+    reveal(Seq::filter);
+    if s.len() > 0 { lemma_partition_len(s.drop_last(), p); }
+}
 /// `r` was obtained by filtering `s` with some predicate that implies `q`  =>  every element of r is in s and satisfies q
 pub open spec fn elem_of<T>(s: Seq<T>, x: T) -> bool { exists|i: int| 0 <= i < s.len() && #[trigger] s[i] == x }
 pub proof fn lemma_filter_implies<T>(s: Seq<T>, r: Seq<T>, q: spec_fn(T) -> bool)
